@@ -140,6 +140,9 @@ mod serde;
 pub mod strategy;
 #[cfg(feature = "weak")]
 mod weak;
+#[cfg(arc_swap_verif)]
+#[doc(hidden)]
+pub mod verif;
 
 use core::borrow::Borrow;
 use core::fmt::{Debug, Display, Formatter, Result as FmtResult};
@@ -147,7 +150,10 @@ use core::marker::PhantomData;
 use core::mem;
 use core::ops::Deref;
 use core::ptr;
+#[cfg(not(arc_swap_verif))]
 use core::sync::atomic::{AtomicPtr, Ordering};
+#[cfg(arc_swap_verif)]
+use {crate::verif::AtomicPtr, core::sync::atomic::Ordering};
 
 use alloc::sync::Arc;
 
@@ -359,6 +365,15 @@ where
 impl<T: RefCnt + Default, S: Default + Strategy<T>> Default for ArcSwapAny<T, S> {
     fn default() -> Self {
         Self::new(T::default())
+    }
+}
+
+#[cfg(arc_swap_verif)]
+impl<T: RefCnt, S: Strategy<T>> ArcSwapAny<T, S> {
+    /// Address of the atomic pointer inside (verification accessor).
+    #[doc(hidden)]
+    pub fn verif_ptr_addr(&self) -> usize {
+        &self.ptr as *const _ as usize
     }
 }
 
